@@ -346,6 +346,7 @@ data_dir = os.path.join(os.path.dirname(sys.modules["iodata"].__file__), "test",
 files = sorted(f for f in glob.glob(os.path.join(data_dir, "*")) if os.path.isfile(f) and os.path.getsize(f) < 400000)
 rng.shuffle(files)
 tmp = tempfile.mkdtemp()
+__import__("atexit").register(__import__("shutil").rmtree, tmp, True)
 fails, cases = [], 0
 class Timeout(Exception): pass
 def handler(sig, frm): raise Timeout()
